@@ -36,16 +36,36 @@ def by_core(table, default=None):
     return f
 
 
+def source_modules(module):
+    """the source-tie module of a property module, if there is one: lean/Mqtt/Properties/<pid>Source.lean holds the
+    theorems that tie the models to the regenerated translation Generated/Xlate.lean (BUILDING.md, "Source-tie
+    modules"); it belongs to the property's check and to nothing else"""
+    import os
+    from .env import LEAN
+    m = module + 'Source'
+    return [m] if os.path.exists(os.path.join(LEAN, *m.split('.')) + '.lean') else []
+
+
 class Prop:
     def __init__(self, pid, module, cores, runs, tie_eq=eq_lines, oracle=eq_lines, nontrivial=None,
-                 spec_total=True, level='proof', assumptions=(), trusted=(), classes=None, extra_checks=(), unspecified=None):
+                 spec_total=True, level='proof', assumptions=(), trusted=(), classes=None, extra_checks=(), unspecified=None,
+                 extra_modules=None):
         self.pid, self.module, self.cores, self.runs = pid, module, cores, runs
+        # further Lean modules whose theorems are obligations of this property: built (each by its own lake
+        # invocation), listed, axiom-audited and leanchecked with the main module; a failure there is a broken
+        # obligation of this property only and hides nothing about the main module
+        self.extra_modules = list(extra_modules) if extra_modules is not None else source_modules(module)
         self.tie_eq, self.oracle, self.nontrivial = tie_eq, oracle, nontrivial or (lambda op, out: True)
         self.spec_total, self.level = spec_total, level
         self.assumptions, self.trusted = list(assumptions), list(trusted)
         self.classes = classes or {}       # known-finding class name -> predicate(op line) -> bool
         self.extra_checks = list(extra_checks)
         self.unspecified = unspecified   # predicate(prefix): episode is in territory the properties leave open
+
+    @property
+    def modules(self):
+        """every Lean module whose theorems are obligations of this property (main module first)"""
+        return [self.module] + self.extra_modules
 
 
 COMMON_TRUSTED = [
